@@ -225,10 +225,11 @@ fn cmp_op(func: &str, a: &str, b: &str) -> String {
     }
 }
 
-struct Rec(Vec<u8>);
+struct Rec(Vec<Vec<u8>>);
 impl std::hash::Hasher for Rec {
     fn finish(&self) -> u64 { 0 }
-    fn write(&mut self, bytes: &[u8]) { self.0.extend_from_slice(bytes); }
+    // every write call is recorded as its own chunk: "identical data" includes how it is split into calls
+    fn write(&mut self, bytes: &[u8]) { self.0.push(bytes.to_vec()); }
 }
 
 fn hash_op(a: &str) -> String {
@@ -236,7 +237,7 @@ fn hash_op(a: &str) -> String {
     let x = p_dec(a);
     let mut r = Rec(vec![]);
     x.hash(&mut r);
-    r.0.iter().map(|b| b.to_string()).collect::<Vec<_>>().join(",")
+    r.0.iter().map(|c| c.iter().map(|b| b.to_string()).collect::<Vec<_>>().join(",")).collect::<Vec<_>>().join("|")
 }
 
 fn from_float(ty: &str, entry: &str, bits: &str) -> String {
